@@ -43,7 +43,9 @@ def smib_cases(draw):
     state = [1] * nl
     t = 0.0
     for _ in range(draw(st.integers(1, 3))):
-        t = float(round(t + draw(st.floats(0.05, 0.6)), 4))
+        # switching times: rounded to 4 decimals, or with all their binary digits (e.g. 5/6, k/30 + a computed delay)
+        t = t + draw(st.floats(0.05, 0.6))
+        t = float(round(t, 4)) if draw(st.integers(0, 2)) else float(t)
         if t >= c['tf'] - 0.2:
             break
         k = draw(st.integers(0, nl - 1))
